@@ -529,7 +529,11 @@ impl Check for C03 {
                     let rel = relate(&sc.world, &extents, &books, false, Some(e));
                     if let Relation::OkaneRejected { flat } = rel {
                         if let ApiErr::BookKeep { variant, .. } = e {
-                            if variant == "UndeduciblePostingAmount" || variant == "BalanceFailure" {
+                            // the model books this entry, and it holds an omitted or an assigned
+                            // amount: refusing it, for whatever reason, withholds the amount the
+                            // statement says the posting receives (entries without either are C01's)
+                            let infers = books.txns.iter().any(|t| t.flat == flat && (t.inferred.is_some() || !t.assigned.is_empty()));
+                            if variant == "UndeduciblePostingAmount" || variant == "BalanceFailure" || infers {
                                 out.violate(
                                     "C03/deducible-rejected",
                                     variant.clone(),
